@@ -89,6 +89,15 @@ CHECKS = {
          "Schedule points exist only where hook lines are (a lint fails the check with exit 2 when a .lock() in list.rs has no hook line before it); sequentially consistent interleavings only (no weak-memory effects); Arc reference counting trusted. Two threads wrongly admitted into one critical section (a lock that became shared) never overlap under a lock-granularity scheduler: for that class only, a supplementary free-running pass (28 cases x 4 unscheduled OS threads, invariants of every linearizable execution; sampling, labelled exhaustive=false, not counted in states) runs after the exhaustive part."),
 }
 
+# sentences appended to the level text (families added in later rounds)
+EXTRA = {
+ "C02": " Also: anonymous records written in every permutation against every permutation of the written-out type at 12 unification sites, and two written-out types listing the same fields in different orders at 4 site groups (a type error is an allowed answer; otherwise fields are addressed by name).",
+ "C03": " A tracked value that is compared (`==`, contains, index) must be live: read-after-drop is an event of its own.",
+ "C06": " Further layers: scaling repeaters (L6), self-reference through type constructors (L7), constants in every position (L8), uninhabited / unconstrained bindings (L9), type names with 0-3 arguments in every type position (L10), diagnostics across 2-3 modules behind comment headers in 1-4 byte characters (L11, 47 096 inputs).",
+ "C08": " Also: unit-typed effect expressions (host / script / nested calls of type ()) in every position that takes a unit value, incl. accept / reject / return operands.",
+ "C16": " Secondary entry points: 2x2 programs over the type-erased script-side operations (contains_owned, index_owned, push, swap, +, len), Rust index and Rust == on two handles of one list.",
+}
+
 NOT_YET = {
 }
 
@@ -102,6 +111,7 @@ for p in props:
     i = p["id"]
     if i in CHECKS:
         sec, tech, text, note = CHECKS[i]
+        text = text + EXTRA.get(i, "")
         checks.append({
             "property_id": i,
             "quick_cmd": f"./check {i} quick",
